@@ -66,10 +66,10 @@ fn resolve_integer_array_value(value: Option<Value<'_>>) -> Result<Option<ValueB
             values
                 .iter()
                 .map(|result| {
-                    result.map(Int8::from).map(|value| match value {
-                        Int8::Value(n) => Some(i32::from(n)),
-                        Int8::Missing => None,
-                        _ => todo!("unhandled i8 array value: {:?}", value),
+                    result.map(Int8::from).and_then(|value| match value {
+                        Int8::Value(n) => Ok(Some(i32::from(n))),
+                        Int8::Missing => Ok(None),
+                        _ => Err(std::io::Error::from(std::io::ErrorKind::InvalidData)),
                     })
                 })
                 .collect::<Result<Vec<_>, _>>()
@@ -82,10 +82,10 @@ fn resolve_integer_array_value(value: Option<Value<'_>>) -> Result<Option<ValueB
             values
                 .iter()
                 .map(|result| {
-                    result.map(Int16::from).map(|value| match value {
-                        Int16::Value(n) => Some(i32::from(n)),
-                        Int16::Missing => None,
-                        _ => todo!("unhandled i16 array value: {:?}", value),
+                    result.map(Int16::from).and_then(|value| match value {
+                        Int16::Value(n) => Ok(Some(i32::from(n))),
+                        Int16::Missing => Ok(None),
+                        _ => Err(std::io::Error::from(std::io::ErrorKind::InvalidData)),
                     })
                 })
                 .collect::<Result<Vec<_>, _>>()
@@ -96,10 +96,10 @@ fn resolve_integer_array_value(value: Option<Value<'_>>) -> Result<Option<ValueB
             values
                 .iter()
                 .map(|result| {
-                    result.map(Int32::from).map(|value| match value {
-                        Int32::Value(n) => Some(n),
-                        Int32::Missing => None,
-                        _ => todo!("unhandled i32 array value: {:?}", value),
+                    result.map(Int32::from).and_then(|value| match value {
+                        Int32::Value(n) => Ok(Some(n)),
+                        Int32::Missing => Ok(None),
+                        _ => Err(std::io::Error::from(std::io::ErrorKind::InvalidData)),
                     })
                 })
                 .collect::<Result<Vec<_>, _>>()
@@ -132,10 +132,10 @@ fn resolve_float_array_value(value: Option<Value<'_>>) -> Result<Option<ValueBuf
             values
                 .iter()
                 .map(|result| {
-                    result.map(Float::from).map(|value| match value {
-                        Float::Value(n) => Some(n),
-                        Float::Missing => None,
-                        _ => todo!("unhandled float array value: {:?}", value),
+                    result.map(Float::from).and_then(|value| match value {
+                        Float::Value(n) => Ok(Some(n)),
+                        Float::Missing => Ok(None),
+                        _ => Err(std::io::Error::from(std::io::ErrorKind::InvalidData)),
                     })
                 })
                 .collect::<Result<Vec<_>, _>>()
